@@ -104,7 +104,11 @@ func VerifC12RawFrame() {
 	raw := vstub.NdBytes("raw", l)
 	em := &recEmitter{}
 	d := &directChannel{emitter: em, logger: zap.NewNop()}
+	// oversized frames are refused: no buffer larger than the frame limit is ever
+	// allocated from a length prefix chosen by the remote peer
+	vstub.AllocLimit(DelimitedReadMaxSize)
 	d.handleNewPeer(&stubStream{buf: raw, remote: peer.ID("mallory")})
+	vstub.AllocLimit(0)
 	vstub.Cover("handled")
 	vstub.Assert(len(em.got) <= 1, "C12 at most one payload per stream")
 	if len(em.got) == 1 {
